@@ -33,4 +33,4 @@ Extraction "pwm_model.ml"
   strand_symmetric check_mirror
   f32_neg f32_sqrt conv_N conv_id dot norm auto_correlation cross_correlation
   entropy consensus weight_information_content scoring_information_content weight_of_scoring
-  bg_from_counts_ovf check_consensus check_corr_range check_corr_sym check_entropy_range.
+  bg_from_counts_ovf check_consensus check_corr_range check_corr_sym check_entropy_range check_entropy check_auto_periodic check_entropy_exact check_sic.
